@@ -3,11 +3,54 @@ Shares the real round trips of C04 (harness/props/c04.py): every link written by
 in_toto_run / record start+stop is judged against independent before/after
 snapshots, and honest chains (no tamper, content-preserving rewrite, excluded
 file) must verify."""
-from harness import core
+import os
+
+from harness import core, world as W
 from harness.props import c04
 
 RULE = c04.RULE + " For C11 the histories are restricted to honest ones and harmless changes."
 ASSUMPTIONS = c04.ASSUMPTIONS + ["gpg signing of DSSE envelopes is documented as unsupported and excluded"]
+
+
+def signal_exit_case(rng, res):
+    """A step command that is ended by a signal (or exits with an unusual status): the link is written all the same and
+    records that status - the negative signal number, as `subprocess` reports it -, and can be loaded again."""
+    import contextlib, io, logging, shutil, signal, sys, tempfile
+    import in_toto.runlib as rl
+    from in_toto.models.metadata import Metadata
+    logging.getLogger("in_toto").setLevel(logging.CRITICAL)
+    k = rng.choice(W.pool())
+    dsse = rng.random() < 0.5
+    streams = rng.random() < 0.5
+    how, want = rng.choice([("os.kill(os.getpid(), signal.SIGKILL)", -signal.SIGKILL), ("os.kill(os.getpid(), signal.SIGTERM)", -signal.SIGTERM),
+                            ("os.abort()", -signal.SIGABRT), ("sys.exit(255)", 255), ("sys.exit(3)", 3)])
+    cmd = [sys.executable, "-c", "import os, signal, sys; sys.stdout.write('partial\\n'); sys.stdout.flush(); " + how]
+    d = tempfile.mkdtemp(prefix="verif-c11s-")
+    cwd = os.getcwd()
+    try:
+        os.chdir(d)
+        open("a.txt", "w").write("a\n")
+        try:
+            with contextlib.redirect_stdout(io.StringIO()), contextlib.redirect_stderr(io.StringIO()):
+                md = rl.in_toto_run("st", ["a.txt"], ["a.txt"], cmd, record_streams=streams, signer=k.signer, use_dsse=dsse, timeout=60)
+            pl = md.get_payload()
+            got = {"return-value": pl.byproducts.get("return-value"), "stdout": pl.byproducts.get("stdout"),
+                   "file": os.path.exists("st.%s.link" % k.keyid[:8])}
+            if got["file"]:
+                back = Metadata.load("st.%s.link" % k.keyid[:8])
+                got["reloaded_return_value"] = back.get_payload().byproducts.get("return-value")
+        except Exception as e:  # pylint: disable=broad-except
+            got = {"err": W.exc_class(e)}
+    finally:
+        os.chdir(cwd)
+        shutil.rmtree(d, ignore_errors=True)
+    want_d = {"return-value": want, "stdout": "partial\n" if streams else "", "file": True, "reloaded_return_value": want}
+    case = {"op": "signal_exit", "command_ends_with": how, "record_streams": streams, "dsse": dsse, "key": k.kind}
+    res.case(dict(case, got=got), True, got == want_d, sample_cap=1)
+    res.count("signal_exit")
+    if got != want_d:
+        res.fail("oracle", case, {"why": "the link of a step whose command was ended by a signal / exited with an unusual status does not record "
+                                         "that status (or was not written, or cannot be loaded again)", "impl": got, "expected": want_d})
 
 
 def shard(seed, idx, n, tier):
@@ -21,6 +64,7 @@ def shard(seed, idx, n, tier):
             c04.one_case(rng, res, check_c11=True, case_no=idx * n + j)
     finally:
         cr.TAMPERS = old
+    signal_exit_case(rng, res)
     # the command line is the library with another way of passing arguments (harness/cliequiv.py)
     from harness import cliequiv
     for _ in range(max(2, n // 2)):
